@@ -126,9 +126,7 @@ func verifAcquire(id uintptr) {
 		verifClasses[id] = class
 	}
 	for _, h := range verifHeld[g] {
-		if h.id == id {
-			continue
-		}
+		// h.id == id: the goroutine acquires a lock it already holds (recursive read locking): recorded as a self edge
 		k := [2]uintptr{h.id, id}
 		e := verifEdges[k]
 		if e == nil {
